@@ -52,14 +52,16 @@ static std::string progs_json(randomx_cache& cache) {
 }
 
 // program interpreter on seeded registers, then items by the interpreted item function and by the compiled initialiser
-static void exercise(randomx_cache& cache, Rng& rng, bool thorough) {
-		// interpreter of single programs on seeded registers (before the reciprocal cache rewrites the immediates)
+// the program interpreter on seeded registers
+static void exec_events(randomx_cache& cache, Rng& rng, bool thorough) {
 	for (int i = 0; i < RANDOMX_CACHE_ACCESSES; ++i) for (int rep = 0; rep < (thorough ? 6 : 2); ++rep) {
 		uint64_t r[8], r0[8]; for (int q = 0; q < 8; ++q) r0[q] = r[q] = reg_value(rng);
 		executeSuperscalar(r, cache.programs[i], nullptr);
 		Line l; l.str("e", "exec").num("prog", i).words("r", r0, 8).words("out", r, 8); l.emit(out);
 	}
-	// as initCache does: reciprocals into the cache, immediates replaced by indices; then compile
+}
+// for a cache object assembled by the harness (synthetic programs): what initCache does after generating the programs
+static void finish_cache(randomx_cache& cache) {
 	cache.reciprocalCache.clear();
 	for (int i = 0; i < RANDOMX_CACHE_ACCESSES; ++i) for (unsigned j = 0; j < cache.programs[i].getSize(); ++j) {
 		auto& in = cache.programs[i](j);
@@ -67,16 +69,18 @@ static void exercise(randomx_cache& cache, Rng& rng, bool thorough) {
 	}
 	cache.jit->generateSuperscalarHash(cache.programs, cache.reciprocalCache);
 	cache.jit->generateDatasetInitCode();
-	auto native = cache.jit->getDatasetInitFunc();
+}
+// items by the interpreted item function and by the compiled initialiser of `cache`, over the pattern memory
+static void item_events(randomx_cache* cache, randomx::DatasetInitFunc* native, Rng& rng, bool thorough) {
 	for (int it = 0; it < (thorough ? 12 : 4); ++it) {
 		uint64_t item = it == 0 ? 0 : (it == 1 ? 34078715 : (it == 2 ? 4194303 : rng.below(34078716u)));
 		item &= ~3ull;
 		uint64_t pat = rng.next();
 		cache_reset(pat);
 		alignas(64) uint8_t a[64 * 4], b[64 * 4];
-		for (int q = 0; q < 4; ++q) initDatasetItem(&cache, a + 64 * q, item + q);
+		for (int q = 0; q < 4; ++q) initDatasetItem(cache, a + 64 * q, item + q);
 		cache_reset(pat);
-		native(&cache, b, (uint32_t)item, (uint32_t)item + 4);
+		native(cache, b, (uint32_t)item, (uint32_t)item + 4);
 		for (int q = 0; q < 4; ++q) {
 			uint32_t n = (uint32_t)(item + q);
 			Line l; l.str("e", "item").limbs("item", &n, 4).w64("pat", pat).words("interp", (const uint64_t*)(a + 64 * q), 8).words("native", (const uint64_t*)(b + 64 * q), 8); l.emit(out);
@@ -84,7 +88,6 @@ static void exercise(randomx_cache& cache, Rng& rng, bool thorough) {
 		}
 	}
 }
-
 // immediates of the classes an encoder can get wrong: around the imm8 / imm16 / imm32 sign boundaries
 static uint32_t imm_class(Rng& rng) {
 	static const uint32_t C[] = { 0, 1, 2, 3, 0x7e, 0x7f, 0x80, 0x81, 0xfe, 0xff, 0x100, 0x101, 0x7fff, 0x8000, 0xffff, 0x10000, 0x7fffff, 0x800000, 0x7ffffffe, 0x7fffffff,
@@ -129,14 +132,20 @@ int main(int argc, char** argv) {
 		// keys: lengths 0..200; only the first 60 bytes seed the generator (a second key sharing them must give the same programs)
 		size_t klen = k == 0 ? 0 : (k == 1 ? 60 : (k == 2 ? 200 : rng.below(120)));
 		std::vector<uint8_t> key = rng.bytes(klen);
-		randomx_cache cache;
-		cache.memory = g_mem; cache.jit = new JitCompiler(); cache.jit->enableAll();
+		// the programs as the generator produces them from the key (logged with their divisors) ...
+		randomx_cache probe;
 		Blake2Generator gen(key.data(), key.size());
-		for (int i = 0; i < RANDOMX_CACHE_ACCESSES; ++i) generateSuperscalar(cache.programs[i], gen);
-		std::string progs = progs_json(cache);
-		{ Line l; l.str("e", "ss").bytes("key", key).raw("progs", progs); l.emit(out); }
-		exercise(cache, rng, thorough);
-		delete cache.jit;
+		for (int i = 0; i < RANDOMX_CACHE_ACCESSES; ++i) generateSuperscalar(probe.programs[i], gen);
+		{ Line l; l.str("e", "ss").bytes("key", key).raw("progs", progs_json(probe)); l.emit(out); }
+		exec_events(probe, rng, thorough);
+		// ... and the cache object as the LIBRARY builds it from the same key (randomx_init_cache: programs, reciprocal table, compiled
+		// initialiser); only its 256 MiB memory is exchanged for the pattern memory so that the specification knows every cache line
+		randomx_cache* cache = randomx_alloc_cache(RANDOMX_FLAG_JIT);
+		randomx_init_cache(cache, key.data(), key.size());
+		uint8_t* real = cache->memory; cache->memory = g_mem;
+		item_events(cache, cache->datasetInit, rng, thorough);
+		cache->memory = real;
+		randomx_release_cache(cache);
 	}
 	// synthetic program sets
 	int nsynth = atoi(arg(argc, argv, "--synth", thorough ? "160" : "16"));
@@ -145,7 +154,9 @@ int main(int argc, char** argv) {
 		cache.memory = g_mem; cache.jit = new JitCompiler(); cache.jit->enableAll();
 		for (int i = 0; i < RANDOMX_CACHE_ACCESSES; ++i) synth_program(cache.programs[i], rng, k == 0 && i == 0 ? 1 : (k == 1 && i == 0 ? 512 : 24 + rng.below(72)));
 		{ Line l; l.str("e", "ssp").raw("progs", progs_json(cache)); l.emit(out); }
-		exercise(cache, rng, thorough);
+		exec_events(cache, rng, thorough);
+		finish_cache(cache);
+		item_events(&cache, cache.jit->getDatasetInitFunc(), rng, thorough);
 		delete cache.jit;
 	}
 	fclose(out);
